@@ -14,6 +14,7 @@ import Driver.C17
 import Driver.C11
 import Driver.C15
 import Driver.C06
+import Driver.C07
 open Lean Driver
 
 def dispatch (j : Json) : R Json := do
@@ -36,6 +37,7 @@ def dispatch (j : Json) : R Json := do
   | "C11" => Driver.C11.handle op j
   | "C15" => Driver.C15.handle op j
   | "C06" => Driver.C06.handle op j
+  | "C07" => Driver.C07.handle op j
   | _ => throw s!"unknown property {p}"
 
 partial def loop (h : IO.FS.Stream) (out : IO.FS.Stream) : IO Unit := do
